@@ -147,7 +147,8 @@ def run(tier, seed):
             if text is not None:
                 expected[p["name"]] = (text, kind)
         code = codes[ci % len(codes)]
-        inst = UUID if ci % 3 == 0 else None
+        # supplied instance ids: an ordinary one, the nil uuid, the all-ones uuid; or none (a fresh one must be drawn)
+        inst = [UUID, None, "00000000-0000-0000-0000-000000000000", None, "ffffffff-ffff-ffff-ffff-ffffffffffff", None][ci % 6]
         mode = ("propagated" if ci % 2 else "propagated_safe") if c["propagated"] else ("service" if ci % 2 else "service_safe")
         cid = "c%d" % ci
         docs.append(json.dumps({"id": cid, "code": code, "name": "Verif:Err%d" % (ci % 7), "instance": inst, "mode": mode, "params": params}))
